@@ -49,6 +49,8 @@ class Check(HCheck):
             al.rule(Ax, "path2"),
             al.rule(Ax, "path1"),  # a page AT the anchor is itself matched by the rule
             al.rule(C1, "subdomain"),
+            al.rule(Axy, "path1"),  # anchored two path stems down, proposes the prefix one stem up
+            al.rule(Aw, "domain"),  # anchored on the www sub-domain, proposes the domain above it
             al.unrule(A),
             al.REOPEN,
         ]
